@@ -122,13 +122,13 @@ Typed(conc, r) == IF r.t = "A" /\ conc[r.d[1]].v = 6 THEN [r EXCEPT !.t = "AAAA"
 SoaModes == {"own", "parent", "sibling", "root"}
 SoaOwner(so) == CASE so = "parent" -> T1 [] so = "sibling" -> M1 [] so = "root" -> Root [] OTHER -> L1
 
-Net(lmode, mmode, tmode, inj, denyS, denyA, cv, so) ==
+Net(lmode, mmode, tmode, inj, denyS, denyA, cv, so, qtp) ==
     LET conc == Conc(cv) IN
     [zones |-> {[z EXCEPT !.recs = {Typed(conc, r) : r \in z.recs}, !.soa = IF z.apex = L1 THEN SoaOwner(so) ELSE z.apex] :
                 z \in Zones(lmode, mmode, tmode)},
      roots |-> {"a1"}, inj |-> {[x EXCEPT !.r = Typed(conc, x.r)] : x \in inj},
      conc |-> conc, denyS |-> denyS, denyA |-> denyA,
-     qt |-> IF conc["h1"].v = 6 THEN "AAAA" ELSE "A",
+     qt |-> IF qtp # "auto" THEN qtp ELSE IF conc["h1"].v = 6 THEN "AAAA" ELSE "A",
      tag |-> <<lmode, mmode, tmode, cv, so>>]
 
 \* hostile additions: all out of bailiwick for the server that sends them
@@ -167,8 +167,13 @@ TreeF(tm) == IF tm = "tree34" THEN 3 ELSE 2
 TreeD(tm) == CASE tm = "tree22" -> 2 [] tm = "tree23" -> 3 [] OTHER -> 4
 
 \* parameter records and the internet each stands for
-P(lm, mm, tm, inj, fs, fa, cv) == [lm |-> lm, mm |-> mm, tm |-> tm, inj |-> inj, fs |-> fs, fa |-> fa, cv |-> cv, so |-> "own"]
-NetOfParams(p) == Net(p.lm, p.mm, p.tm, p.inj, p.fs, p.fa, p.cv, p.so)
+P(lm, mm, tm, inj, fs, fa, cv) == [lm |-> lm, mm |-> mm, tm |-> tm, inj |-> inj, fs |-> fs, fa |-> fa, cv |-> cv, so |-> "own", qt |-> "auto"]
+NetOfParams(p) == Net(p.lm, p.mm, p.tm, p.inj, p.fs, p.fa, p.cv, p.so, p.qt)
+\* DS questions (for the zone l.t1 -- asked on the parent side, at t1's server -- and for the host w.l.t1)
+\* with hostile servers of t1 / l.t1 decorating every response
+DsParams ==
+    {[P("in", "in", "a", inj, NoFilter, NoFilter, "v4") EXCEPT !.qt = "DS"] :
+        inj \in {{}} \cup {x \in InjBy("a2", "in", "in") \cup InjBy("a4", "in", "in") : \A i \in x : i.when = "any"}}
 \* negative answers (name error, no data) whose SOA is owned inside / outside the answering server's zone
 SoaParams == {[P(lm, "in", tm, {}, NoFilter, NoFilter, "v4") EXCEPT !.so = so] :
                  lm \in {"in", "out"}, tm \in {"none", "ent"}, so \in SoaModes}
@@ -183,5 +188,6 @@ V6Params ==
                                        fs \in {NoFilter, Loop6, Ten}, fa \in {NoFilter, Loop6, Ten}}
 TreeParams(TM) == {P("in", "in", tm, TreeInj(TreeF(tm), TreeD(tm)), NoFilter, NoFilter, "v4") : tm \in TM}
 
-TheQuestions == {[qn |-> H("w", L1), qt |-> "A"], [qn |-> H("w", L1), qt |-> "AAAA"]}
+TheQuestions == {[qn |-> H("w", L1), qt |-> "A"], [qn |-> H("w", L1), qt |-> "AAAA"],
+                 [qn |-> H("w", L1), qt |-> "DS"], [qn |-> L1, qt |-> "DS"]}
 =============================================================================
